@@ -86,6 +86,15 @@ fn c20gq_missing_argument() {
     scan_is(&["-a", "-b"], "ab:c", &[A, ('b', Arg::Missing)], 3);
     scan_is(&["-ab"], "ab:c", &[A, ('b', Arg::Missing)], 2);
 }
+// option characters outside ASCII: positions inside a group are positions of CHARACTERS, so an option-argument attached after a
+// multi-byte option letter is the same as the separate spelling
+#[kani::proof] #[kani::unwind(12)]
+fn c20gq_non_ascii_option_in_a_group() {
+    const E: Occ = ('\u{e9}', Arg::None);
+    scan_is(&["-\u{e9}xfoo"], "\u{e9}x:", &[E, ('x', Arg::Is("foo"))], 2);
+    scan_is(&["-\u{e9}x", "foo"], "\u{e9}x:", &[E, ('x', Arg::Is("foo"))], 3);
+    scan_is(&["-\u{e9}", "-x", "foo"], "\u{e9}x:", &[E, ('x', Arg::Is("foo"))], 4);
+}
 // negative control: a false expectation must be refuted
 #[kani::proof] #[kani::unwind(12)]
 fn c20gx_control() {
